@@ -77,6 +77,9 @@ def make_scene(shape, variant, seed):
         data[rng.random(shape) < 0.05] = np.nan
         data[ny // 2, nx // 2 + 1] = np.inf
     err = rng.uniform(0.5, 1.5, shape)
+    # a noiseless patch (error exactly 0) around the second position: apertures wholly inside it
+    # have sum_err == 0.0, which is a number, not "no unmasked pixel"
+    err[2:7, 1:6] = 0.0
     return data, err
 
 
